@@ -13,7 +13,15 @@ INTS = [0, 1, -1, 42, 2**31, 2**63, 2**64, 10**100, 10**4000]
 FLOATS = [0.0, -0.0, 1.0, 1.5, 0.1, 1e308, 5e-324, float("inf"), float("-inf"), float("nan")]
 OTHERS = [True, False, None]
 
-ALL = STRS + INTS + FLOATS + OTHERS
+# values of other types a caller may pass as a unit id: their str() is their key like anyone else's (a formatting shortcut such as
+# '%s' % (uid) would unpack a tuple, f-string / format specs would treat some specially)
+from decimal import Decimal  # noqa: E402
+from fractions import Fraction  # noqa: E402
+
+OBJECTS = [(17,), ("acme", 17), (), ((1, 2),), [1, 2], [], {"a": 1}, {}, frozenset({1}), b"x", bytearray(b"x"), Fraction(1, 3), Decimal("1.50"), 1 + 2j, range(3),
+           ("%s",), ("{0}", 1), {"uid": 1}]  # fmt: skip
+
+ALL = STRS + INTS + FLOATS + OTHERS + OBJECTS
 
 # pairs that print identically and therefore must share a bucket
 SAME_STR = [(1, "1"), (1.0, "1.0"), (True, "True"), (None, "None"), (float("nan"), "nan"), (-1, "-1"),
